@@ -147,12 +147,19 @@ var templates = []string{
 	".sgwtmp/multipart", ".sgwtmp/../../bkt-b/secret.txt", "../bkt-b/.sgwtmp/x", "../../ver/bkt-v", "../../ver/planted", "../../../root/bkt-b/secret.txt", "../../../outside/canary.txt", "../../../../outside/canary.txt", "../../sidecar/bkt-b/secret.txt/meta/etag",
 	"../../sidecar/planted", "bkt-b/secret.txt", "../bkt-a/../bkt-b/secret.txt", "obj1/../../bkt-b/secret.txt", "obj1/..", "dir/..", "dir/../..", ".", "./", "/",
 	"../bkt-l/locked", "../bkt-new-by-traversal", "../bkt-new-by-traversal/", "../bkt-b/newdir/",
+	// one level less: for parameters that are joined to the storage root itself (bucket names, the bucket part of a copy source)
+	"../outside/canary.txt", "../outside/planted", "../iam/users.json", "../iam/canary.txt", "../iam/planted", "../ver/planted", "../sidecar/planted",
+	"/../outside/canary.txt", "../outside/canary.txt?versionId=null", "..", "../outside",
 }
 
 func expand(tpl string, sb *gw.Sandbox) string {
 	r := strings.NewReplacer("{area}", sb.Area, "{root}", sb.Root, "{outside}", sb.Outside, "{iam}", sb.IAM)
 	return r.Replace(tpl)
 }
+
+// privileged: root and accounts with the admin role may use every bucket; naming another bucket by its
+// clean name is then an ordinary request
+func privileged(name string) bool { return name == "root" || cat.Roles[name] == "admin" }
 
 func creds(name string) s3c.Creds {
 	if name == "root" {
@@ -272,7 +279,7 @@ func execA(c caseA) (v verdict, err error) {
 	// root is authorised for every bucket, so when root names another bucket by a clean
 	// name that bucket's storage is the one that may change
 	named := w.fx.BktA
-	if seg := strings.SplitN(strings.TrimPrefix(req.Path, "/"), "/", 2)[0]; c.Caller == "root" && c.Param == "bucket" && seg != "" && seg != "." && seg != ".." {
+	if seg := strings.SplitN(strings.TrimPrefix(req.Path, "/"), "/", 2)[0]; privileged(c.Caller) && c.Param == "bucket" && seg != "" && seg != "." && seg != ".." {
 		named = seg
 	}
 	inA := func(abs string) bool {
@@ -322,12 +329,12 @@ func execA(c caseA) (v verdict, err error) {
 		}
 		return nil
 	})
-	if leak != "" && !(c.Caller == "root" && !strings.Contains(h, "..") && !strings.HasPrefix(h, "/")) {
+	if leak != "" && !(privileged(c.Caller) && !strings.Contains(h, "..") && !strings.HasPrefix(h, "/")) {
 		return v, fmt.Errorf("%s pulled data from outside into the bucket it names: %s", pfx, leak)
 	}
 	for _, tok := range outsideTokens {
 		if bytes.Contains(resp.Raw, []byte(tok)) {
-			if c.Caller == "root" && (tok == cat.CanaryBucketB || tok == "locked data") && !strings.Contains(h, "..") && !strings.HasPrefix(h, "/") {
+			if privileged(c.Caller) && (tok == cat.CanaryBucketB || tok == "locked data") && !strings.Contains(h, "..") && !strings.HasPrefix(h, "/") {
 				continue
 			}
 			return v, fmt.Errorf("%s disclosed data from outside the bucket it names (%q): answer %d %q", pfx, tok, resp.Status, trunc(string(resp.Body)))
@@ -358,7 +365,7 @@ func genCase(t *rapid.T) caseA {
 	e := cat.Lookup(c.Spec.Op)
 	c.Spec.Bucket = "A"
 	c.Spec.Key = rapid.SampledFrom([]string{"obj", "obj", "nested", "mp", "new", "dirobj"}).Draw(t, "key")
-	c.Caller = rapid.SampledFrom([]string{"alice", "alice", "alice", "root"}).Draw(t, "caller")
+	c.Caller = rapid.SampledFrom([]string{"alice", "alice", "root", "root", "dave"}).Draw(t, "caller")
 	if e.Level == "admin" {
 		c.Caller = "root"
 	}
@@ -380,7 +387,13 @@ func genCase(t *rapid.T) caseA {
 	}
 	c.Hostile = rapid.OneOf(rapid.SampledFrom(templates), rapid.Custom(func(t *rapid.T) string {
 		// free construction: up-levels, a sibling directory, a leaf
-		up := rapid.IntRange(0, 11).Draw(t, "up")
+		// how many levels lead from the directory the parameter is joined to up to the sandbox area: one for a
+		// parameter joined to the storage root (bucket names), two for a key; that depth gets most of the weight
+		ups := []int{2, 2, 2, 2, 1, 3, 0, 4, 5, 11}
+		if c.Param == "bucket" || c.Param == "copy-source-bucket" || c.Param == "admin-bucket" {
+			ups = []int{1, 1, 1, 1, 2, 3, 0, 4, 5, 11}
+		}
+		up := rapid.SampledFrom(ups).Draw(t, "up")
 		s := strings.Repeat("../", up)
 		if rapid.Bool().Draw(t, "via_dir") {
 			s = "dir/../" + s
